@@ -1,6 +1,6 @@
 SPEC = dict(
     props_file="C18",
-    legs=[dict(family="countmin", oracles=["prop_layout"], profiles=["debug"], n_quick=100, n_thorough=1000)],
+    legs=[dict(family="countmin", oracles=["prop_layout"], profiles=["debug"], n_quick=100, n_thorough=1000, panic_is_violation=True)],
     level_text="Theorems (Props/C18.v and its parts Props/C18_<family>.v): image sizes / retained counts are functions of the configuration, from the models' invariants. "
                "Tie: serialize().len() of the crate checked against the formula on every serialize observation.",
     level_note="CPC 99.9th-percentile size and the t-digest centroid bound are empirical: no theorem (DESIGN.md section 9). "
